@@ -6,6 +6,12 @@
 //   hlist ...same fields...   the request and every remote go through HTTP and the real controller router:
 //                             rpc.Conn -> router.New(federation Conn) and Conn.remotes[id] = rpc.Conn -> router.New(stub);
 //                             the call log is reduced to "F=uuid~in~t:<sorted batch>" (or "F=*") => answer
+//   slist<N> ...same fields...  as list, with a rendezvous of the per-cluster goroutines of splitListRequest: the first N
+//                             arrivals at an instrumented point (just before a statement that calls fn, i.e. after the
+//                             goroutine has written the request for its batch and before it hands it to fn) wait for
+//                             each other, then all go on together (N = number of involved known clusters, so every one
+//                             has prepared its first request before any is sent; released after 5 s if fewer arrive).
+//                             Result line as for list: the rendezvous must not change anything.
 //     kind     coll|ctr|cr|grp|spec|user     which generated_*List is called; "user@<id>" sets cluster.Login.LoginCluster
 //              to <id> (conn.go UserList then hands the request to chooseBackend(<id>) and caches the returned
 //              users of that cluster through local.UserBatchUpdate: logged as backend "<local>#upd", call
@@ -74,6 +80,9 @@ type verifC20Stub struct {
 	updLog    []string
 	// ends the caller's context (script action "c")
 	cancelCaller func()
+	// op hlist: log entries in reduced form (reduced when appended: after a cancellation the handler of a
+	// remote may still be running when the request has returned)
+	reduce bool
 }
 
 // far above any legitimate number of calls (at most one per requested uuid)
@@ -233,7 +242,11 @@ func (s *verifC20Stub) respond(ctx context.Context, opts arvados.ListOptions) (i
 			}
 			resp = fmt.Sprintf("E%d", st)
 		}
-		s.log = append(s.log, verifC20RenderReq(opts)+" => "+resp)
+		entry := verifC20RenderReq(opts) + " => " + resp
+		if s.reduce {
+			entry = verifC20Reduce(entry)
+		}
+		s.log = append(s.log, entry)
 	}()
 	if act == "c" {
 		s.cancelCaller()
@@ -435,8 +448,41 @@ func verifC20Case(line string, overrun chan string) (out string) {
 		}
 	}()
 	f := strings.Split(line, " ")
+	syncN := 0
+	if len(f) == 9 && strings.HasPrefix(f[0], "slist") {
+		n, err := strconv.Atoi(f[0][5:])
+		if err != nil || n < 1 || n > 64 {
+			return "bad-op"
+		}
+		syncN = n
+		f[0] = "list"
+	}
 	if len(f) != 9 || (f[0] != "list" && f[0] != "hlist") {
 		return "bad-op"
+	}
+	if syncN > 0 {
+		var bmtx sync.Mutex
+		arrived := 0
+		release := make(chan struct{})
+		verifC20Hook.Store(func(string) {
+			bmtx.Lock()
+			if arrived >= syncN {
+				bmtx.Unlock()
+				return
+			}
+			arrived++
+			if arrived == syncN {
+				close(release)
+				bmtx.Unlock()
+				return
+			}
+			bmtx.Unlock()
+			select {
+			case <-release:
+			case <-time.After(5 * time.Second):
+			}
+		})
+		defer verifC20Hook.Store(func(string) {})
 	}
 	overHTTP := f[0] == "hlist"
 	kind, local := f[1], f[2]
@@ -513,7 +559,7 @@ func verifC20Case(line string, overrun chan string) (out string) {
 	ctx, cancelCaller := context.WithCancel(auth.NewContext(context.Background(), &auth.Credentials{Tokens: []string{arvadostest.ActiveTokenV2}}))
 	defer cancelCaller()
 	mkstub := func(id, holder string) *verifC20Stub {
-		st := &verifC20Stub{id: id, script: scripts[id], overrun: overrun, cancelCaller: cancelCaller}
+		st := &verifC20Stub{id: id, script: scripts[id], overrun: overrun, cancelCaller: cancelCaller, reduce: f[0] == "hlist"}
 		for _, o := range world {
 			if len(o.uuid) >= 5 && o.uuid[:5] == holder {
 				st.holdings = append(st.holdings, o)
@@ -630,11 +676,8 @@ func verifC20Case(line string, overrun chan string) (out string) {
 	sort.Slice(stubs, func(i, j int) bool { return stubs[i].id < stubs[j].id })
 	var logs []string
 	for _, st := range stubs {
-		if overHTTP {
-			for i, l := range st.log {
-				st.log[i] = verifC20Reduce(l)
-			}
-		}
+		st.mtx.Lock()
+		defer st.mtx.Unlock()
 		if len(st.log) > 0 {
 			logs = append(logs, st.id+": "+strings.Join(st.log, " // "))
 		}
